@@ -189,6 +189,12 @@ def ob_compute(W, Ls, Ks, order, iscsd, backend, win_kind, prior=False):
             # a DIFFERENT user-supplied window callable (both are 'custom' windows as far as names go)
             def prior_win(M, *beta):
                 return oarr([SR(z3.Real("priorwin_%d_%d" % (M, i))) for i in range(int(M))])
+            # ... of the SAME name (two lambdas, two partials, two functions called `window`): a name does not identify a callable
+            for at in ("__name__", "__qualname__"):
+                try:
+                    setattr(prior_win, at, getattr(win_stub, at))
+                except Exception:
+                    pass
         a0 = _mk(W, G, N, order, iscsd, backend, win_kind, prior_win, 1.25, fs, W.reals("px", N), W.reals("py", N) if iscsd else None)
         a0._plan_cache = mkplan()
         a0.compute()
@@ -247,8 +253,8 @@ def _concrete_compute(W, Ls, Ks, order, iscsd, backend, win_kind, N, fs, fvals, 
     try:
         if prior:
             A.SpectrumAnalyzer(rng.standard_normal((2, Nr)) if iscsd else rng.standard_normal(Nr), fsr, order=order, backend=backend,
-                               win=("kaiser" if win_kind == "kaiser" else rnp.blackman), psll=60, scheduler=sched, olap=0.5).compute()
-        a = A.SpectrumAnalyzer(data, fsr, order=order, backend=backend, win=("kaiser" if win_kind == "kaiser" else (rnp.hanning if prior else "hann")), psll=120, scheduler=sched, olap=0.5)
+                               win=("kaiser" if win_kind == "kaiser" else (lambda M: rnp.blackman(M))), psll=60, scheduler=sched, olap=0.5).compute()
+        a = A.SpectrumAnalyzer(data, fsr, order=order, backend=backend, win=("kaiser" if win_kind == "kaiser" else ((lambda M: rnp.hanning(M)) if prior else "hann")), psll=120, scheduler=sched, olap=0.5)
         res = a.compute()
         alpha = a.config.get("alpha")
         for j, L in enumerate(Ls):
